@@ -93,9 +93,21 @@ Definition apply_agg (a : agg) (l : list val) : val :=
   | ALen => VNum false (2 * Z.of_nat (length l))
   | ASum => vsum l
   end.
-(* column label of a y value: str(key) if is_int(key) else key  (strings, and ints 0..9, are what the generator emits) *)
+(* column label of a y value: str(key) if is_int(key) else key.  Strings label themselves, ints their decimal digits;
+   a float stays a float key in python - observed through str(), i.e. '2.5' / '-10.5' / '3.0' for the half-integers generated *)
+Fixpoint pos_digits (fuel : nat) (n : Z) (acc : list N) : list N :=
+  match fuel with
+  | O => acc
+  | S f => if n <? 10 then Z.to_N (48 + n) :: acc else pos_digits f (n / 10) (Z.to_N (48 + n mod 10) :: acc)
+  end.
+Definition int_label (n : Z) : list N := if n <? 0 then 45%N :: pos_digits 60 (- n) [] else pos_digits 60 n [].
 Definition label_of (v : val) : colname :=
-  match v with VStr s => s | VNum false t => [Z.to_N (48 + t / 2)] | _ => [63%N] end.
+  match v with
+  | VStr s => s
+  | VNum false t => int_label (t / 2)
+  | VNum true t => (if t <? 0 then [45%N] else []) ++ pos_digits 60 (Z.abs t / 2) [] ++ [46%N; if Z.odd t then 53%N else 48%N]
+  | _ => [63%N]
+  end.
 Fixpoint index_of (x : val) (l : list val) (i : nat) : option nat :=
   match l with [] => None | v :: l' => if elem_eqb v x then Some i else index_of x l' (S i) end.
 
